@@ -12,7 +12,7 @@ CONSTANTS
   ClassShapes <- MCClassShapes
   DeployShapes <- MCDeployShapes
   CasmV2From = 4
-  ClassFields <- MCClassFields
+  ClassFields <- MCNone
   TxClassFields <- MCTxClassFields
   ClassOf <- MCClassOf
   ValidClassOf <- MCValidClassOf
